@@ -909,6 +909,21 @@ def _cache_key(rel, src_digest):
     return h.hexdigest()[:32]
 
 
+def new_module_constants(tree, ref):
+    """module-level names bound once to an immutable literal / table of constants / compiled regex that the reviewed copy does not have"""
+    def consts(t):
+        out, counts = {}, Counter()
+        for s in t.body:
+            if isinstance(s, ast.Assign) and len(s.targets) == 1 and isinstance(s.targets[0], ast.Name):
+                counts[s.targets[0].id] += 1
+                if _immutable_literal(s.value) or _const_collection(s.value) or _compiled_regex(s.value):
+                    out[s.targets[0].id] = s.value
+        return {k: v for k, v in out.items() if counts[k] == 1}
+    cf, cr = consts(tree), consts(ref)
+    names_r = {t.id for s in ref.body if isinstance(s, ast.Assign) for t in s.targets if isinstance(t, ast.Name)}
+    return {k: v for k, v in cf.items() if k not in cr and k not in names_r and _immutable_literal(v)}
+
+
 def normalise(tree, rel, module_key, src_digest=None):
     """normalise `tree` in place; -> stats dict (None when there is no reference for this module).
     The result for a given (module text, reference text, normaliser code) is cached under /verif/.cache (every property check
